@@ -27,16 +27,26 @@ impl<'s> Deref for InputSig<'s> {
 /// Returns the new lifetime parameter, which is then the lifetime of the `__impl` reference:
 /// with a `&self` receiver next to it, elision would pick the wrong input.
 pub fn name_elided_output_lifetimes(sig: &mut syn::Signature) -> Option<syn::Lifetime> {
-    name_elided_lifetimes(sig, false)
+    name_elided_lifetimes(sig, false, None)
+}
+
+/// When the dependency reference has a lifetime of its own, that is what
+/// the elided lifetimes of the output stand for.
+pub fn name_elided_output_lifetimes_as(sig: &mut syn::Signature, lifetime: &syn::Lifetime) {
+    name_elided_lifetimes(sig, false, Some(lifetime.clone()));
 }
 
 /// Like [name_elided_output_lifetimes], for a signature that is about to receive a `&self` receiver:
 /// when exactly one input lifetime is elided, that is the one the output refers to, and it gets the same name.
 pub fn name_elided_input_and_output_lifetimes(sig: &mut syn::Signature) {
-    name_elided_lifetimes(sig, true);
+    name_elided_lifetimes(sig, true, None);
 }
 
-fn name_elided_lifetimes(sig: &mut syn::Signature, with_inputs: bool) -> Option<syn::Lifetime> {
+fn name_elided_lifetimes(
+    sig: &mut syn::Signature,
+    with_inputs: bool,
+    existing: Option<syn::Lifetime>,
+) -> Option<syn::Lifetime> {
     use syn::visit_mut::VisitMut;
 
     struct Namer {
@@ -74,8 +84,10 @@ fn name_elided_lifetimes(sig: &mut syn::Signature, with_inputs: bool) -> Option<
         }
     }
 
+    let declared = existing.is_some();
     let mut namer = Namer {
-        lifetime: syn::Lifetime::new("'__impl", proc_macro2::Span::call_site()),
+        lifetime: existing
+            .unwrap_or_else(|| syn::Lifetime::new("'__impl", proc_macro2::Span::call_site())),
         found: 0,
         rename: false,
     };
@@ -99,7 +111,9 @@ fn name_elided_lifetimes(sig: &mut syn::Signature, with_inputs: bool) -> Option<
     namer.rename = true;
     namer.visit_return_type_mut(&mut sig.output);
 
-    if namer.found > 0 {
+    if declared {
+        None
+    } else if namer.found > 0 {
         sig.generics.params.insert(0, {
             let lifetime = &namer.lifetime;
             syn::parse_quote! { #lifetime }
